@@ -96,6 +96,7 @@ def main():
         m = re.search(r"(go (?:test|run) .*)", drun)
         dcmd = m.group(1) if m else drun
         dcmd = re.sub(r"^cd \S+ && ", "", dcmd)
+        dcmd = re.split(r"\s{2,}\(|\s+\(needs ", dcmd)[0].strip()     # explanatory text after the command
         rc1, out1 = sh(dcmd, cwd=wt, timeout=1200)
         res["ran"].append("demo with patch (%s): rc=%d" % (dcmd, rc1))
         sh(["git", "apply", "-R", patch], cwd=wt)
